@@ -586,7 +586,6 @@ func (s *state) visitForeach(node *ast.ForNode) {
 		itemList,
 		itemListLen,
 		itemIndex = s.scope.pushForEach(node.Var)
-	defer s.scope.pop()
 	s.jsln("var ", itemList, " = ", list, ";")
 	s.jsln("var ", itemListLen, " = ", itemList, ".length;")
 	if node.IfEmpty != nil {
@@ -599,6 +598,7 @@ func (s *state) visitForeach(node *ast.ForNode) {
 	s.walk(node.Body)
 	s.indentLevels--
 	s.jsln("}")
+	s.scope.pop() // (the loop variable is not in scope in {ifempty})
 	if node.IfEmpty != nil {
 		s.indentLevels--
 		s.jsln("} else {")
